@@ -126,7 +126,8 @@ CHECKS['C02'] = dict(
          'the entry values, first nouts entries of the chosen branch kept; carried state re-injected before every iteration into a store '
          'whose other variables hold arbitrary tracing garbage on assigned names) agrees with the original statement on every variable '
          'live after it, for arbitrary bodies (functions on stores), values, iteration counts (divergence matched by divergence), and '
-         '(tracing_program_sound) for whole structured programs of any nesting depth under big-step semantics, with '
+         '(tracing_program_sound, tracing_program_sound_reinjected: carried state re-injected before every iteration into arbitrary '
+         'garbage) for whole structured programs of any nesting depth under big-step semantics, with '
          'the state tuple and nouts being those of the generated formulas; the remaining hypotheses are the semantic contents of C08 '
          '(bodies write only their modified set) and C07 (liveness: live-out values depend only on live-in values; loop header kills '
          'nothing; for whole programs: the closure of the loop header sets, checked by an executable checker). Tied by calling the real '
